@@ -1037,6 +1037,8 @@ func (x *Exec) specCall(env *SpecEnv, c ECall) SpecVal {
 			kt = x.intLit(kv.N, env.st.heap[base+"!vis"].Sort.IndexSort())
 		}
 		return SpecVal{T: Select(env.st.heap[base+"!vis"], kt)}
+	case "errAs":
+		return SpecVal{T: x.errAs(x.specTerm(env, c.Args[0]), x.specTerm(env, c.Args[1]))}
 	case "mark":
 		// mark(x): always true; a state-independent term to trigger on
 		// (forall m :: withtrig(mark(m), ...) fires for every m whose mark
